@@ -10,6 +10,8 @@ import (
 	"encoding/asn1"
 	"fmt"
 	"math/big"
+	"os"
+	"path/filepath"
 	"strings"
 
 	"github.com/wokdav/gopki/generator/cert"
@@ -113,6 +115,10 @@ func c17Enumerate(tier string, yield func(any)) {
 			}
 		}
 	}
+	// the native filesystem: an artifact file is overwritten by a shorter / longer / equally long one and read back
+	for _, pair := range [][2]string{{"RSA-4096-0", "P-256-0"}, {"RSA-2048-0", "P-224-0"}, {"P-521-0", "P-256-1"}, {"P-256-0", "RSA-2048-1"}, {"P-256-0", "P-256-1"}, {"brainpoolP512r1-0", "brainpoolP256r1-0"}} {
+		yield(&c17Case{Kind: "native-rewrite", KeyFix: pair[0], RSA: pair[1]})
+	}
 	// an artifact file with a damaged key block (scalar = group order) in every position relative to valid blocks
 	for _, o := range []string{"K", "Kc", "cK", "Kr", "rK", "cKr", "Krc", "rcK", "crK", "Kcr", "rKc"} {
 		for _, h := range []bool{false, true} {
@@ -191,6 +197,8 @@ func c17Exec(x *engine.Ctx, cc any) {
 		c17EC(x, c)
 	case "rsa":
 		c17RSA(x, c)
+	case "native-rewrite":
+		c17NativeRewrite(x, c)
 	case "file":
 		c17File(x, c)
 	case "reject":
@@ -284,6 +292,18 @@ func c17EC(x *engine.Ctx, c *c17Case) {
 			}
 			x.Eval(1)
 		}
+	}
+	// tools that pad the scalar with extra zero octets in front: refused or read as the same key
+	full := (ci.Curve.Params().N.BitLen() + 7) / 8
+	for _, extra := range []int{1, 2, 3, 8} {
+		der := refx509.BuildECPKCS8(ci, d, refx509.ECEncoding{OuterOID: true, Public: extra%2 == 0, ScalarLen: full + extra})
+		gk, err := cert.ParsePKCS8PrivateKey(der)
+		if err != nil {
+			x.Outcome("zero-padded scalar refused (allowed)")
+		} else if ek, ok := gk.(*ecdsa.PrivateKey); !ok || !ecEqual(key, ek) {
+			x.Violation("C17/interop/zero-padded-scalar-read-as-different-key "+feat, fmt.Sprintf("scalar %x encoded in %d octets: read back as %#v", d, full+extra, gk))
+		}
+		x.Eval(1)
 	}
 	x.Outcome("ec ok " + c.Curve)
 }
@@ -663,6 +683,62 @@ func c17OtherContainer(x *engine.Ctx, c *c17Case) {
 	}
 }
 
+// c17NativeRewrite writes key A (with a certificate and a request in front, so the file is long) and then
+// key B alone to the same name through gopki's native filesystem, and reads the file back.
+func c17NativeRewrite(x *engine.Ctx, c *c17Case) {
+	dir, err := os.MkdirTemp("", "vnative")
+	if err != nil {
+		x.Cap("no temporary directory: " + err.Error())
+		return
+	}
+	defer os.RemoveAll(dir)
+	certDER, _, reqDER, err := c17Objects(c.KeyFix)
+	if err != nil {
+		x.Cap("cannot build file objects: " + err.Error())
+		return
+	}
+	first := append(append(append([]byte("#HASH:2jmj7l5rSw0yVb/vlWAYkK/YBwk=\n"), refx509.EncodePem("CERTIFICATE", certDER)...), FixtureKeyPEM(c.KeyFix)...), refx509.EncodePem("CERTIFICATE REQUEST", reqDER)...)
+	second := FixtureKeyPEM(c.RSA)
+	nfs := filesystem.NewNativeFs(dir)
+	x.Nontrivial("native-rewrite " + c.KeyFix + " " + c.RSA)
+	for i, content := range [][]byte{first, second, first, second} {
+		if err := nfs.WriteFile("ent.pem", content); err != nil {
+			x.Violation("C17/native/write-error", err.Error())
+			return
+		}
+		got, err := os.ReadFile(filepath.Join(dir, "ent.pem"))
+		if err != nil {
+			x.Violation("C17/native/read-error", err.Error())
+			return
+		}
+		if !bytes.Equal(got, content) {
+			x.Violation("C17/native/file-is-not-what-was-written", fmt.Sprintf("write %d of %s/%s: wrote %d bytes, the file holds %d bytes (an overwritten file keeps nothing of its former content)", i, c.KeyFix, c.RSA, len(content), len(got)))
+			return
+		}
+		pf, err := cert.ReadPem(got)
+		wantFix := c.KeyFix
+		if i%2 == 1 {
+			wantFix = c.RSA
+		}
+		want, _ := refx509.ParsePKCS8(FixtureKeyDER(wantFix))
+		if err != nil || pf.PrivateKey == nil {
+			x.Violation("C17/native/key-not-read-back", fmt.Sprintf("write %d: %v", i, err))
+			return
+		}
+		switch k := pf.PrivateKey.(type) {
+		case *rsa.PrivateKey:
+			if want.RSA == nil || k.D.Cmp(want.RSA.D) != 0 {
+				x.Violation("C17/native/other-key-read-back", fmt.Sprintf("write %d: wrote %s", i, wantFix))
+			}
+		case *ecdsa.PrivateKey:
+			if want.EC == nil || k.D.Cmp(want.EC.D) != 0 {
+				x.Violation("C17/native/other-key-read-back", fmt.Sprintf("write %d: wrote %s", i, wantFix))
+			}
+		}
+	}
+	x.Outcome("native rewrite ok")
+}
+
 func hexShort(b []byte) string {
 	if len(b) > 40 {
 		return fmt.Sprintf("%x...", b[:40])
@@ -674,7 +750,7 @@ func init() {
 	register(&engine.Check{
 		ID:          "C17",
 		Level:       "exploration",
-		Rule:        "10 curves x boundary scalars (1,2,3,n-1,n-2,n/2, the largest and smallest value of every octet length 1..len-1, i.e. every number of leading zero octets, 8 mid-range; 70..150 per curve) through cert.WritePrivateKeyToPem -> cert.ReadPem, the reference PKCS#8 decoder, crypto/x509 in both directions (NIST) , 8 reference-built PKCS#8 layouts (curve OID outer / inner / both, with and without embedded public key, compressed public point) and the minimal-length (leading zeros stripped) encodings; 10 RSA fixture keys 1024..4096; artifact files for all 16 block orders over {cert,key,request} x hash line x 4 key types through cert.ReadPem, and the 15 non-empty orders as an entity's artifact read by opening the directory with the hash line first / after the first block / last and with a blank line at the end, the same with RSA-4096 and RSA-8192 keys (files of 4 to 8 KB), and 11 orders with a damaged key block among valid blocks (must be reported); rejection inputs: scalar 0, n, n+1, 2^(8len)-1, unknown/missing curve, ECPrivateKey version 0/2, swapped RSA/EC bodies, unknown algorithm, every strict prefix of a valid EC key per curve and of an RSA key, PEM around non-DER, and SEC1 / PKCS#1 / encrypted key blocks (an error or the key, never silently nothing). non-trivial = distinct case that reached a comparison",
+		Rule:        "10 curves x boundary scalars (1,2,3,n-1,n-2,n/2, the largest and smallest value of every octet length 1..len-1, i.e. every number of leading zero octets, 8 mid-range; 70..150 per curve) through cert.WritePrivateKeyToPem -> cert.ReadPem, the reference PKCS#8 decoder, crypto/x509 in both directions (NIST) , 8 reference-built PKCS#8 layouts (curve OID outer / inner / both, with and without embedded public key, compressed public point) and the minimal-length (leading zeros stripped) and zero-padded (1, 2, 3, 8 extra octets) encodings; 10 RSA fixture keys 1024..4096; artifact files for all 16 block orders over {cert,key,request} x hash line x 4 key types through cert.ReadPem, and the 15 non-empty orders as an entity's artifact read by opening the directory with the hash line first / after the first block / last and with a blank line at the end, the same with RSA-4096 and RSA-8192 keys (files of 4 to 8 KB), and 11 orders with a damaged key block among valid blocks (must be reported); 6 pairs of artifact contents written over one another (long, short, long, short) through gopki's native filesystem and read back; rejection inputs: scalar 0, n, n+1, 2^(8len)-1, unknown/missing curve, ECPrivateKey version 0/2, swapped RSA/EC bodies, unknown algorithm, every strict prefix of a valid EC key per curve and of an RSA key, PEM around non-DER, and SEC1 / PKCS#1 / encrypted key blocks (an error or the key, never silently nothing). non-trivial = distinct case that reached a comparison",
 		Bound:       map[string]string{"scalars": "boundary values only (any valid scalar is unbounded)", "rsa": "fixture keys 1024,1536,2048,3072,4096 (two each)"},
 		Assumptions: []string{"outer PKCS#8 version and trailing bytes after a complete DER value are not in the rejection alphabet (neither gopki nor the standard library rejects them)", "crypto/x509 is the 'standard library parser' of the statement"},
 		Budget:      budgets(quickBudget, thoroughBudget),
